@@ -26,7 +26,11 @@ static const TSpec tspecs[] = {
   { "sse", { ORC_TARGET_SSE_SSE2, ORC_TARGET_SSE_SSE3, ORC_TARGET_SSE_SSSE3, ORC_TARGET_SSE_SSE4_1, ORC_TARGET_SSE_SSE4_2 }, 5 },
   { "avx", { ORC_TARGET_AVX_AVX, ORC_TARGET_AVX_AVX2 }, 2 },
   { "mmx", { ORC_TARGET_MMX_MMX, ORC_TARGET_MMX_MMXEXT, ORC_TARGET_MMX_3DNOW, ORC_TARGET_MMX_SSSE3, ORC_TARGET_MMX_SSE4_1, ORC_TARGET_MMX_SSE4_2 }, 6 },
+  /* non-x86 targets (mode cross): explicit flag vectors, listed in feat[] */
+  { "neon", { ORC_TARGET_NEON_NEON }, 1 },
+  { "mips", { 2 /* DSP2 */, 3 /* DSP2 + frame pointer */ }, 2 },
 };
+#define NTSPECS ((int)(sizeof(tspecs)/sizeof(tspecs[0])))
 
 typedef struct {
   int shard, nshards;
@@ -54,8 +58,12 @@ static void build_vectors (void)
     OrcTarget *t = orc_target_get_by_name (s);
     unsigned def, allfeat = 0, m, e;
     int i;
-    for (i = 0; i < 3; i++) if (!strcmp (tspecs[i].name, s)) ts = &tspecs[i];
+    for (i = 0; i < NTSPECS; i++) if (!strcmp (tspecs[i].name, s)) ts = &tspecs[i];
     if (!ts || !t) continue;
+    if (!strcmp (opt.vectors, "cross")) {
+      for (i = 0; i < ts->nfeat; i++) { vecs[nvecs].ts = ts; vecs[nvecs].target = t; vecs[nvecs].flags = ts->feat[i]; nvecs++; }
+      continue;
+    }
     def = orc_target_get_default_flags (t);
     for (i = 0; i < ts->nfeat; i++) allfeat |= ts->feat[i];
     if (!strcmp (opt.vectors, "env")) {
@@ -200,6 +208,22 @@ static void do_dump (OrcProgram * p, const Vec * v, const char *desc)
   fprintf (f_idx, "%s\t%s\n", p->name, desc);
 }
 
+/* cross mode: listing and code bytes of one program, for a cross assembler */
+static void do_cross (OrcProgram * p, const Vec * v, const char *desc)
+{
+  const char *a = orc_program_get_asm_code (p);
+  OrcCode *c = p->orccode;
+  int i;
+  (void) v;
+  if (!a || !c) return;
+  fprintf (f_lst, "@@ %s\n%s", p->name, a);
+  if (a[0] && a[strlen (a) - 1] != '\n') fputc ('\n', f_lst);
+  fprintf (f_idx, "%s\t", p->name);
+  for (i = 0; i < c->code_size; i++) fprintf (f_idx, "%02x", c->code[i]);
+  fprintf (f_idx, "\t%s\n", desc);
+  st_bytes += c->code_size;
+}
+
 /* ------------------------------------------------------------ enumeration */
 
 static long g_idx;
@@ -214,6 +238,7 @@ static void handle (OrcProgram * p, const char *desc)
   if (!ORC_COMPILE_RESULT_IS_SUCCESSFUL (res)) { st_fail++; return; }
   st_ok++;
   if (!strcmp (opt.mode, "forms")) do_forms (p, g_vec, desc);
+  else if (!strcmp (opt.mode, "cross")) do_cross (p, g_vec, desc);
   else do_dump (p, g_vec, desc);
 }
 
@@ -302,6 +327,14 @@ int main (int argc, char **argv)
     char fn[1024];
     g_vec = &vecs[vi];
     if (opt.only_vec >= 0 && (long) g_vec->flags != opt.only_vec) continue;
+    if (!strcmp (opt.mode, "cross")) {
+      snprintf (fn, sizeof (fn), "%s/%s_%x_%d.lst", opt.outdir, g_vec->ts->name, g_vec->flags, opt.shard);
+      f_lst = fopen (fn, "w");
+      snprintf (fn, sizeof (fn), "%s/%s_%x_%d.idx", opt.outdir, g_vec->ts->name, g_vec->flags, opt.shard);
+      f_idx = fopen (fn, "w");
+      if (!f_lst || !f_idx) { perror (fn); return 2; }
+      fprintf (f_lst, "@@preamble\n%s\n", orc_target_get_asm_preamble (g_vec->ts->name));
+    }
     if (!strcmp (opt.mode, "dump")) {
       snprintf (fn, sizeof (fn), "%s/%s_%x_%d.lst.s", opt.outdir, g_vec->ts->name, g_vec->flags, opt.shard);
       f_lst = fopen (fn, "w");
@@ -313,6 +346,7 @@ int main (int argc, char **argv)
     }
     enumerate ();
     if (!strcmp (opt.mode, "dump")) { fclose (f_lst); fclose (f_bin); fclose (f_idx); }
+    if (!strcmp (opt.mode, "cross")) { fclose (f_lst); fclose (f_idx); }
   }
   st_programs = g_idx;
   v_out ("{\"t\":\"stat\",\"compiles\":%ld,\"compiled_ok\":%ld,\"not_compiled\":%ld,\"listing_lines\":%ld,\"forms_emitted\":%ld,\"code_bytes\":%ld}",
